@@ -23,6 +23,7 @@ EXPLANATION = (
     '(CAS created->locked), isolated contexts are never bound, final state published with release.  The reachability statement '
     'over all interleavings of bind/cancel (the epoch argument itself) is NOT decided.')
 EXPLANATION += ' Added after the seeded-change rounds: ' + 'D2 also: the may-have-children hint is cleared only at construction; D3 also: a context list that still holds contexts when its thread goes away must stay reachable for the propagation (violated on the pinned tree: known finding); D4 also: the epoch snapshot is taken from the context list that holds the parent whose flag is copied.'
+EXPLANATION += ' Added in the third session (round-3 seeds and the findings they led to): ' + "D2 also: binding can only raise the cancellation flag, never overwrite a requested cancellation with 0; D4 also: a full fence separates the store of the parent's may-have-children hint from every later read of the parent's state (store-buffering pair with cancel_group_execution)."
 ASSUMPTIONS = ['mutex acquisition (d1::mutex / spin_mutex scoped_lock) is a seq_cst RMW, i.e. a full fence',
                'single threading_control instance at a time (as enforced by g_threading_control)']
 ND = ['the reachability statement over all interleavings of bind/cancel', 'destroy racing propagate beyond lock discipline']
